@@ -101,7 +101,8 @@ class QBytesTensor(QTensor):
         overload, op = op, op.overloadpacket
         # Look for a dispatched op accepting QBytesTensor inputs
         qdispatch = get_qbytestensor_op_dispatch(op)
-        if qdispatch is not None:
+        if qdispatch is not None and "out" not in (kwargs or {}):
+            # (the quantized operations return a new Tensor: an explicit output Tensor can only receive the float result)
             return qdispatch(*args, **kwargs)
         if isinstance(args[0], QBytesTensor):
             functional = functional_variant(overload)
